@@ -116,6 +116,10 @@ func Verif_C08_lookup() {
 	scoped, _ := c.LookupDnsRespCache_(c08Query("example.com."), key+"|upstream@x", false)
 	vs.Assert("other upstream scope misses", scoped == nil)
 
+	// a background refresh of this entry may be in flight (started by an earlier stale hit and still
+	// waiting for a slow upstream)
+	refreshInFlight := vs.Bool("refreshInFlight")
+	entry.refreshing.Store(refreshInFlight)
 	resp, needRefresh := c.LookupDnsRespCache_(c08Query("example.com."), key, false)
 	t1 := entry.lastAccessNano.Load() // the instant the lookup observed
 	vs.Assume(t1 >= t0)
@@ -135,7 +139,7 @@ func Verif_C08_lookup() {
 		vs.Assert("shown ttl within the approximation slack", shown <= remaining+1+ttlRefreshThresholdSeconds)
 	} else if inStale {
 		vs.Assert("expired entry inside the stale window is served", resp != nil)
-		vs.Assert("first stale lookup asks for a refresh", needRefresh)
+		vs.Assert("a stale lookup asks for a refresh unless one is already in flight", needRefresh == !refreshInFlight)
 		resp2, again := c.LookupDnsRespCache_(c08Query("example.com."), key, false)
 		t2 := entry.lastAccessNano.Load()
 		if optimistic && (staleTtl == 0 || t2 <= deadline+int64(staleTtl)*c08Sec) {
